@@ -317,7 +317,7 @@ def gen_cases(ck, DP):
     rng = ck.rng
     cases = []
     # 1. parameters imported from the bundled fake backends
-    names = QUICK_BACKENDS if ck.tier == "quick" else backend_names()
+    names = (QUICK_BACKENDS + [x for x in ("FakeBrussels", "FakeStrasbourg") if x not in QUICK_BACKENDS]) if ck.tier == "quick" else backend_names()
     skipped = []
     for nm in names:
         try:
@@ -331,6 +331,14 @@ def gen_cases(ck, DP):
                 "scattered": sorted({0, mid, min(nq - 1, cap)}), "unordered": [q for q in [mid, 0, min(nq - 1, cap), 1] if q < nq]}
         if nm == "FakeKyiv":
             lays["single_last"] = [nq - 1]
+        # qubits whose calibration the backend reports with a non-float scalar type (e.g. the integer gate error 1 of a faulty qubit)
+        try:
+            pr = b.properties()
+            odd = [q for q in range(nq) if any(not isinstance(v, float) for v in (pr.gate_error("x", [q]), pr.t1(q), pr.t2(q), pr.readout_error(q), pr.readout_length(q)))]
+            if odd:
+                lays["non_float_calibration"] = odd[:3] + [q for q in (0,) if q not in odd[:3]]
+        except Exception:  # noqa
+            pass
         seen = set()
         for lname, lay in lays.items():
             lay = list(dict.fromkeys(lay))
